@@ -1236,7 +1236,9 @@ where
                 .into_iter()
                 .map(|elem| match elem {
                     Some(ExprOrSpread { spread: None, expr }) => match *expr {
-                        Expr::Ident(ident) if ident.sym == left.sym => {
+                        // the same binding, not merely the same spelling: the generated `_slot`
+                        // is not a user's `_slot`
+                        Expr::Ident(ident) if ident.to_id() == left.to_id() => {
                             let name = private_ident!(format!("_{}", ident.sym));
                             self.injecting_consts.push(VarDeclarator {
                                 span: DUMMY_SP,
